@@ -334,6 +334,16 @@ def run_ls_tree(case):
     return _tree_result('linesearch', 'ls_one', case, st, outcomes)
 
 
+ROOT_CAUSE_SUFFIXES = ('box-axes-not-eigenvectors-of-hessian', 'rotation-not-orthonormal')
+
+
+def _sig(section, suffix):
+    """Signatures of region-construction findings name the root cause, not the section that met it."""
+    if suffix in ROOT_CAUSE_SUFFIXES:
+        return 'C19:region-constructor:' + suffix
+    return 'C19:%s:%s' % (section, suffix)
+
+
 def _tree_result(section, one_kind, case, st, outcomes):
     res = ok(outcome=None, trivial=st['executions'] <= 1, executions=st['executions'],
              choice_points=st['choice_points'], capped=int(st['capped']))
@@ -341,7 +351,7 @@ def _tree_result(section, one_kind, case, st, outcomes):
                validated=st.get('complete', 0), outcomes=sorted(outcomes), max_depth=st['max_depth'])
     if st['violations']:
         v, choices = min(st['violations'], key=lambda vc: (len(vc[1]), sum(vc[1]), vc[1]))
-        res['viol'] = {'sig': 'C19:%s:%s' % (section, v[0]),
+        res['viol'] = {'sig': _sig(section, v[0]),
                        'detail': jsonable(dict(v[1], answers=choices, n_violating_executions=len(st['violations'])))}
         res['witness'] = dict({k: v_ for k, v_ in case.items() if k != 'max_executions'}, kind=one_kind, choices=choices)
     return res
@@ -503,7 +513,7 @@ def run_build_one(case):
     run = explore.run_once(body, case['choices'])
     v = _build_check(case, run.obs, g, eta, x0, case['hess'])
     if v:
-        return bad('C19:build:' + v[0], dict(v[1], **_build_describe(run.obs, g)))
+        return bad(_sig('build', v[0]), dict(v[1], **_build_describe(run.obs, g)))
     return ok(outcome=digest((run.obs.get('limits'), run.obs['probes'])))
 
 
@@ -511,7 +521,9 @@ def _build_cases(q):
     cases = []
     one_d = [([0.5], [[2.0]]), ([-1.0], [[0.0]])]
     two_d = [([0.5, -1.0], [[1.0, 0.0], [0.0, 2.0]]), ([0.0, 0.0], [[2.0, 1.0], [1.0, 2.0]]),
-             ([1.0, 2.0], [[0.0, 0.0], [0.0, 0.0]])]
+             ([1.0, 2.0], [[0.0, 0.0], [0.0, 0.0]]),
+             # nearly isotropic with asymmetric finite-difference noise, as numerical Hessians are
+             ([0.0, 0.0], [[2.0, 3e-10], [1e-10, 2.0]])]
     for x0, h in one_d:
         for K in (1, 2, 3) if q else (1, 2, 3, 4, 5):
             for rep_lim in (0, 1, 2) if q else (0, 1, 2, 3, 4):
@@ -850,7 +862,7 @@ def _judge_romc(tag, case, romc, values, dim, fit, n2):
                           for th, val in probs[i].c19_probes]}
         v = _build_check(case, obs, g, eta, x0, probs[i].result.hess_appr)
         if v:
-            return bad('C19:%s:region:%s' % (tag, v[0]), dict(v[1], problem=i, **_build_describe(obs, g)))
+            return bad(_sig(tag + ':region', v[0]), dict(v[1], problem=i, **_build_describe(obs, g)))
         eff = [tuple(map(float, r_)) for r_ in lim]
         frames.append((R, c, eff, 1e-9 * ref.box_scale(c, eff)))
         if fit:
